@@ -59,7 +59,7 @@ Judge(e) == CASE e.op = "views" -> JudgeViews(e)
 
 Init == l = 1 /\ bad = << >> /\ done = FALSE
 Step == /\ l <= NRec /\ l' = l + 1 /\ UNCHANGED done
-        /\ bad' = IF Judge(Rec[l]) = {} THEN bad ELSE Append(bad, BadEntry(l, Judge(Rec[l]), Rec[l].op))
+        /\ bad' = IF Judge(Rec[l]) = {} THEN bad ELSE AddBad(bad, BadEntry(l, Judge(Rec[l]), Rec[l].op))
 Finish == l = NRec + 1 /\ ~done /\ done' = TRUE /\ UNCHANGED << l, bad >>
           /\ WriteResult(bad, [episodes |-> NRec, drift |-> Cardinality({i \in 1 .. NRec : Drift(Rec[i])})])
 Next == Step \/ Finish
